@@ -160,6 +160,8 @@ def run(ck: Check) -> int:
                 pass
             # ---- Windows rules on paths: separators interchangeable; equals Unix+IGNORECASE on the normalised name
             q = ppats[k % len(ppats)]
+            if k % 7 == 0:
+                q = R.choice(['!(a)/b', 'a/!(b)/A', '!(a|b)b/b', '@(a)/b', '!(b)/!(a)', '*/!(b)/', 'a/!(a|b)', '!(a)/**/b', '**/!(b)/b'])
             if '\\' in q:
                 continue
             gfl = G.EXTGLOB | (G.GLOBSTAR if R.random() < 0.6 else 0) | (G.DOTGLOB if R.random() < 0.4 else 0)
@@ -174,13 +176,16 @@ def run(ck: Check) -> int:
                             ck.report(Failing(f'FORCEWIN on {x!r} differs from Unix+IGNORECASE on the normalised name for {q!r}',
                                               {'api': 'globmatch', 'pattern': q, 'name': x, 'flags': gfl}, ru, rw), None)
                         # an escaped backslash in the pattern is a separator: same answers as `/`
-                        if '/' in q and '[' not in q and '(' not in q:
+                        # (patterns with groups too, and the name itself as well as below `x/`: added after seeded change C17f — the
+                        # separator after a `!(…)` segment was stored before the group was closed)
+                        if '/' in q and '[' not in q:
                             for extra in (0, G.MATCHBASE, G.MATCHBASE | G.GLOBSTAR):
-                                a1 = bool(G.globmatch('x/' + x, q, flags=gfl | G.FORCEWIN | extra))
-                                a2 = bool(G.globmatch('x/' + x, q.replace('/', '\\\\'), flags=gfl | G.FORCEWIN | extra))
-                                if a1 != a2:
-                                    ck.report(Failing(f'FORCEWIN: pattern {q!r} and its escaped-backslash spelling differ on {"x/" + x!r}',
-                                                      {'api': 'globmatch', 'pattern': q.replace('/', '\\\\'), 'name': 'x/' + x, 'flags': gfl | G.FORCEWIN | extra}, a1, a2), None)
+                                for nm in ('x/' + x, x):
+                                    a1 = bool(G.globmatch(nm, q, flags=gfl | G.FORCEWIN | extra))
+                                    a2 = bool(G.globmatch(nm, q.replace('/', '\\\\'), flags=gfl | G.FORCEWIN | extra))
+                                    if a1 != a2:
+                                        ck.report(Failing(f'FORCEWIN: pattern {q!r} and its escaped-backslash spelling differ on {nm!r}',
+                                                          {'api': 'globmatch', 'pattern': q.replace('/', '\\\\'), 'name': nm, 'flags': gfl | G.FORCEWIN | extra}, a1, a2), None)
                         if rw != bool(mw.match(x.replace('/', '\\'))):
                             ck.report(Failing(f'FORCEWIN distinguishes separator spellings of {x!r} for {q!r}',
                                               {'api': 'globmatch', 'pattern': q, 'name': x, 'flags': gfl}, rw, not rw), None)
@@ -203,7 +208,34 @@ def run(ck: Check) -> int:
                     sr.evaluations += 1
                     if m.match(x):
                         ck.report(Failing(f'drive prefix {drive!r} matches {x!r}', {'api': 'globmatch', 'pattern': drive + '*', 'name': x, 'flags': G.FORCEWIN | cs}, False, True), None)
+        # alternatives that differ only by case (list / BRACE / SPLIT), every subset of {CASE, IGNORECASE, FORCEWIN, FORCEUNIX}: the exact
+        # spelling of ANY alternative always matches, another case variant exactly in case-insensitive mode (added after seeded change
+        # C17e: the duplicate filter folded case by the platform, not by the effective mode)
+        for words in (['Makefile', 'makefile'], ['ab', 'AB', 'aB'], ['x.TXT', 'x.txt']):
+            variants = sorted({w for w in words} | {words[0].upper(), words[0].lower(), swap_ascii(words[0])})
+            for mod, isg in ((F, False), (G, True)):
+                for bits in range(16):
+                    fl = ((mod.CASE if bits & 1 else 0) | (mod.IGNORECASE if bits & 2 else 0) | (mod.FORCEWIN if bits & 4 else 0)
+                          | (mod.FORCEUNIX if bits & 8 else 0))
+                    win = bool(bits & 4) and not bits & 8
+                    if not bits & 12 or (bits & 12) == 12:
+                        win = False         # host rules: Linux
+                    ci = not bits & 1 and (bool(bits & 2) or win)
+                    forms = [(list(words), fl), (list(reversed(words)), fl), ('{' + ','.join(words) + '}', fl | mod.BRACE),
+                             ('|'.join(words), fl | mod.SPLIT), ('|'.join(reversed(words)), fl | mod.SPLIT)]
+                    for pat, f2 in forms:
+                        match = (lambda x: G.globmatch(x, pat, flags=f2)) if isg else (lambda x: F.fnmatch(x, pat, flags=f2))
+                        flt = set((G.globfilter if isg else F.filter)(variants, pat, flags=f2))
+                        for x in variants:
+                            sr.evaluations += 1
+                            exp = x in words or (ci and x.lower() in {w.lower() for w in words})
+                            for api, got in (('match', bool(match(x))), ('filter', x in flt)):
+                                if got != exp:
+                                    ck.report(Failing(f'{mod.__name__}.{api}: alternatives {pat!r} on {x!r}: {got}, the case mode '
+                                                      f'(case-insensitive={ci}) says {exp}',
+                                                      {'api': mod.__name__, 'pattern': pat, 'name': x, 'flags': f2}, exp, got), None)
         sr.note = ('fnmatch: ASCII swapcase of names and of literal pattern text never changes the answer in case-insensitive mode; '
+                   'case-variant alternatives (list/BRACE/SPLIT) x all 16 subsets of the four flags; '
                    'both FORCE flags cancel; glob FORCEWIN: separator spellings interchangeable and equal to Unix+IGNORECASE on the '
                    'normalised name (patterns without backslashes); drive/UNC prefixes literal and case-insensitive')
     ck.search('case-and-platform-api', s_search)
